@@ -265,3 +265,53 @@ def inject_math(cls):
                 setattr(mod, n, v)
         if not hasattr(mod, 'declare'):
             mod.declare = declare
+
+
+class declare_fill(object):
+    """Context manager: declared local matrices of the given equation
+    objects (and of their helper functions) start filled with `value`
+    instead of zeros.  C leaves them uninitialised, so a result that depends
+    on the fill value has no defined Python meaning."""
+
+    def __init__(self, objs, value):
+        import sys
+        self.value = value
+        self.mods = []
+        seen = set()
+        for o in objs:
+            cands = [k.__module__ for k in type(o).__mro__]
+            if hasattr(o, '_get_helpers_'):
+                try:
+                    cands += [f.__module__ for f in o._get_helpers_()]
+                except Exception:
+                    pass
+            for mn in cands:
+                m = sys.modules.get(mn)
+                if m is not None and mn not in seen and \
+                        hasattr(m, 'declare') and \
+                        mn.startswith(('pysph.', 'checks.', 'c02gen_')):
+                    seen.add(mn)
+                    self.mods.append(m)
+
+    def __enter__(self):
+        import numpy as np
+        self.orig = {}
+        val = self.value
+
+        def make(orig):
+            def declare(type, num=1):
+                res = orig(type, num)
+                items = res if isinstance(res, tuple) else (res,)
+                for r in items:
+                    if isinstance(r, np.ndarray):
+                        r[...] = val
+                return res
+            return declare
+        for m in self.mods:
+            self.orig[m] = m.declare
+            m.declare = make(m.declare)
+        return self
+
+    def __exit__(self, *a):
+        for m, o in self.orig.items():
+            m.declare = o
